@@ -43,7 +43,7 @@ func vSL(ss []string) string {
 	}
 	return vL(items...)
 }
-func vNone() string          { return "()" }
+func vNone() string         { return "()" }
 func vSome(x string) string { return "(" + x + ")" }
 
 // caseSet collects the cases of one run: cases.txt for the extracted model,
